@@ -33,6 +33,22 @@ class U2(U0):
     pass
 
 
+def _twin_of_u0():
+    class U0:                                   # noqa: F811
+        def __init__(self, **kw):
+            self.__dict__.update(kw)
+
+        def __repr__(self):
+            return f'U0twin({self.__dict__})'
+    U0.__qualname__ = 'U0'
+    return U0
+
+
+# a DIFFERENT class with the same module, name and repr() as U0 (a class made again by a factory / a reloaded module):
+# caches may key on the hint, never on its repr
+U0_TWIN = _twin_of_u0()
+
+
 class UserSeq(A.Sequence):
     def __init__(self, xs):
         self._xs = list(xs)
@@ -176,6 +192,14 @@ class Pair(T.Generic[_TG]):
         return f'Pair({self.x!r})'
 
 
+class Tagged(Box[int], T.Generic[_TG]):
+    """old-style generic REBINDING the shared type variable in its base: Tagged[str] is a Box[int], i.e. a list[int]"""
+
+
+class Row(tuple[_TG, Box[int]], T.Generic[_TG]):
+    """Row[str] is a tuple[str, Box[int]]"""
+
+
 # user predicates of Is[...]: SAME table as predTable in lean/BearVerif/Driver/Bear.lean
 PRED_FUNCS = [
     lambda x: True,
@@ -218,7 +242,7 @@ LEAF_HASHABLE = [int, str, bool, float, type(None), None, T.Literal[1, 'a'], T.L
                  # collide although they differ (hash(-1) == hash(-2))
                  T.Literal[True, 1], T.Literal[1, True], T.Literal[False, 0, 'a'], T.Literal[-1], T.Literal[-2], T.Literal[-2, 'a'],
                  TV_BOUND, NT_INT, T.Optional[int], int | str, AL_INT, AL_UNION, AL_AL, AL_INT | None]
-LEAF_OTHER = [Proto, Box[int], Box[str], Box, Pair[int], Pair, T.Union[Box[int], Box[str]], T.Union[Box[str], Box[int], None], U0, U1, object, T.Any, type[int], type[U0], type[T.Any], A.Iterator[int], A.Callable[[int], str],
+LEAF_OTHER = [Tagged[str], Tagged, Row[str], list[Tagged[str]], U0_TWIN, list[U0_TWIN], Proto, Box[int], Box[str], Box, Pair[int], Pair, T.Union[Box[int], Box[str]], T.Union[Box[str], Box[int], None], U0, U1, object, T.Any, type[int], type[U0], type[T.Any], A.Iterator[int], A.Callable[[int], str],
               A.Generator[int, None, None], A.ItemsView[str, int], T.List, TV_FREE, TV_CONSTR, NT_LIST, list, dict,
               complex, bytes, A.Hashable, A.Sized, AL_ANY, AL_LIST, AL_ANY | int, T.Optional[AL_ANY], T.Union[AL_LIST, str],
               AL_REC, AL_RECD, AL_RECT, list[AL_REC]]
@@ -462,6 +486,10 @@ class ObjGen:
             return Box(mk(args[0]) for _ in range(self.size()))
         if origin is Pair:
             return Pair(mk(args[0]))
+        if origin is Tagged:
+            return Tagged(r.choice([[1, 2, 3], [], [0], ['a']]))
+        if origin is Row:
+            return Row((mk(args[0]), Box(r.choice([[1, 2], [], ['a']]))))
         if origin is A.Iterator:
             return iter([1, 2])
         if origin is A.Generator:
@@ -513,6 +541,7 @@ class ObjGen:
                  bytes: lambda: b'x', list: lambda: [1, 'a'][:self.size()], dict: lambda: {'a': 1},
                  Proto: lambda: Impl(), Box: lambda: r.choice([Box([1, 2]), Box(['a', 'b']), Box()]), Pair: lambda: Pair(1),
                  U0: lambda: r.choice([U0(x=1), U1(x=0, y='ab'), U2()]), U1: lambda: U1(x=2),
+                 U0_TWIN: lambda: r.choice([U0_TWIN(x=1), U0(x=1)]), Tagged: lambda: Tagged(r.choice([[1, 2], [], ['a']])),
                  A.Hashable: lambda: r.choice([1, 'a', (1,)]), A.Sized: lambda: r.choice([[1], 'ab', {1: 2}])}
         f = table.get(c)
         return f() if f else self.anything(hashable)
